@@ -37,7 +37,7 @@ import (
 
 // ------------------------------------------------------------------ parent (stream conc.race)
 
-var typeSets = []string{"shared", "recursive", "disjoint", "generated", "mixed", "failing", "mutual", "flatten", "clash"}
+var typeSets = []string{"shared", "recursive", "disjoint", "generated", "mixed", "failing", "mutual", "flatten", "clash", "bigenum"}
 
 type raceImpl struct {
 	child      string
@@ -367,6 +367,22 @@ func pickTargets(set string, rng *rand.Rand) []*target {
 				newFn: func() protoreflect.Message { return dynamicpb.NewMessage(md) }, clash: true})
 		}
 		return append(out, generated(rng, nil)...)
+	case "bigenum":
+		// an enum with far more options than any compiled-in one, used as a scalar, in arrays and in nested
+		// messages; the decode inputs of this set write the values with the enum's prefix (CURRENCY_C17), the
+		// spelling that goes past j5reflect's short-name scan to EnumSchema.OptionByName: lookups in a shared
+		// schema object on the very first use of the type (seeded change C10-m8: a lazily built name index)
+		descs, err := buildBigEnum(24 + rng.IntN(40))
+		if err != nil {
+			return nil
+		}
+		var out []*target
+		for i, md := range descs {
+			md := md
+			out = append(out, &target{name: "b" + strconv.Itoa(i) + ":" + string(md.FullName()), desc: md,
+				newFn: func() protoreflect.Message { return dynamicpb.NewMessage(md) }})
+		}
+		return out
 	case "mutual":
 		// rings with back edges: self and mutual recursion, first use from every goroutine at once
 		return append(generated(rng, func(g Graph, style int) bool { return style == 1 && len(g) >= 3 }), recursive[:3]...)
@@ -506,6 +522,30 @@ func queryFor(rng *rand.Rand, md protoreflect.MessageDescriptor) url.Values {
 		q.Set("noSuchField", "1")
 	}
 	return q
+}
+
+// prefixedEnumNames rewrites the short enum value names of the bigenum set ("C17") in a JSON input
+// to the prefixed spelling ("CURRENCY_C17"), which the decoder accepts as well.
+var shortCurrency = regexp.MustCompile(`"(C[0-9]+)"`)
+
+func prefixedEnumNames(b []byte) []byte {
+	return shortCurrency.ReplaceAll(b, []byte(`"CURRENCY_$1"`))
+}
+
+// enumQuery adds the enum fields of the message to a query, values in the prefixed spelling.
+func enumQuery(rng *rand.Rand, md protoreflect.MessageDescriptor, q url.Values) {
+	q.Del("noSuchField")
+	for i := 0; i < md.Fields().Len(); i++ {
+		fd := md.Fields().Get(i)
+		if fd.Kind() != protoreflect.EnumKind || fd.IsList() || fd.IsMap() {
+			continue
+		}
+		vs := fd.Enum().Values()
+		q.Set(fd.JSONName(), string(vs.Get(1+rng.IntN(vs.Len()-1)).Name()))
+	}
+	if len(q) == 0 {
+		q.Set("noSuchField", "1")
+	}
 }
 
 func digest(m proto.Message) string {
@@ -679,6 +719,10 @@ func childMain(args []string) {
 				t.json = []byte("{}")
 			}
 			t.query = queryFor(rng, t.desc)
+			if set == "bigenum" {
+				t.json = prefixedEnumNames(t.json)
+				enumQuery(rng, t.desc, t.query)
+			}
 		}
 		cc := j5codec.NewCodec()
 		if mode == "global" && round == 0 {
